@@ -175,8 +175,8 @@ class Facts:
                         as_value.add(m.group(1))
         out = {}
         for f in self.fns:
-            if f.kind not in ("Fn", "AssocFn") or f.d.get("exported", True) or f.d.get("impl_trait") or f.derived:
-                continue
+            if f.kind not in ("Fn", "AssocFn") or f.d.get("exported", True) or f.derived:
+                continue  # (methods of a crate-private trait are not exported either: they qualify)
             if f.path in as_value:
                 continue
             if f.path not in callers or not f.d.get("mir"):
@@ -250,14 +250,42 @@ class Facts:
         c = [f for f in self.fns_of(struct_short, name, trait) if next_input is None or f.next_input == next_input]
         return c[0] if c else None
 
-    def resolve_callee(self, callee):
-        """Fn object of a crate-local callee (resolved through impls), else None"""
+    def resolve_callee(self, callee, subst=None):
+        """Fn object of a crate-local callee (resolved through impls), else None.  `subst` maps the type parameters of the
+        function being evaluated to the types it was instantiated with (for calls that are generic in the caller)."""
         p = callee.get("resolved") if callee.get("resolved_local") else None
         if p is None and callee.get("local"):
             p = callee.get("path")
         if p is None:
             return None
-        return self.fn_by_path.get(p)
+        f = self.fn_by_path.get(p)
+        if f is not None:
+            return f
+        cands = self.generic_candidates(callee)
+        if len(cands) == 1:
+            return cands[0]
+        if not cands:
+            return None
+        want = []
+        for a in (callee.get("targs") or [])[1:]:
+            if a.get("k") == "param" and subst and a.get("name") in subst:
+                a = subst[a["name"]]
+            want.append(a)
+
+        def same(x, y):
+            if x.get("s") == y.get("s"):
+                return True
+            # `&T` for the caller's T matches the impl written for `&T` with its own T
+            return x.get("k") == y.get("k") == "ref" and (x.get("to") or {}).get("k") == (y.get("to") or {}).get("k") == "param"
+        hits = [c for c in cands if len(c.impl_trait_args) == len(want) and all(same(x, y) for x, y in zip(c.impl_trait_args, want))]
+        return hits[0] if len(hits) == 1 else None
+
+    def generic_candidates(self, callee):
+        """all crate impls a trait-method call on a crate type can dispatch to (the call is generic in the trait's arguments)"""
+        st = callee.get("self_ty") or {}
+        if not (callee.get("trait") and st.get("k") == "adt" and st.get("krate") == self.d["crate"]):
+            return []
+        return [f for f in self.fns if f.impl_trait == callee["trait"] and f.name == callee.get("name") and f.impl_self and f.impl_self.get("path") == st.get("path")]
 
 
 _loaded = {}
